@@ -240,13 +240,20 @@ Qed.
 
 (* ---- mk_instance ---- *)
 
+Lemma hm_collect_incl l : incl (hm_collect l) l.
+Proof.
+  induction l as [|x l IH]; cbn [hm_collect]; [apply incl_refl|].
+  destruct (existsb _ l); [apply incl_tl; exact IH|].
+  intros y [<-|Hy]; [left; reflexivity | right; apply IH; exact Hy].
+Qed.
+
 Lemma mk_instance_inv s node name t cols r s3 :
   InvC [] s -> mk_instance s node name t cols = (r, s3) ->
   InvC (tref_cids r) s3 /\ tr_source r = t
   /\ tables s3 = tables s /\ frames s3 = frames s /\ next_tid s3 = next_tid s.
 Proof.
   intros [C1 C2 C3 C4]. unfold mk_instance. intro H; injection H as <- <-.
-  set (u := uniq cols). set (b := next_cid s).
+  set (u := cols). set (b := next_cid s).
   assert (tref_cids (mkTRef t (combine u (seqN b (length u))) name) = seqN b (length u)) as Er.
   { unfold tref_cids. cbn [tr_columns]. apply combine_snd. rewrite seqN_length. reflexivity. }
   cbn [tr_source tables frames next_tid]. split; [|repeat split; reflexivity].
@@ -259,19 +266,32 @@ Proof.
   - intros x Hx. destruct (cnt (seqN b (length u)) x) eqn:E.
     + specialize (C2 x). rewrite cnt_nil in C2. unfold b. nlia.
     + pose proof (cnt_seqN_pos b (length u) x). nlia.
-  - intros x Hx. unfold mapping_cids in Hx. cbn [flat_map snd target_cids] in Hx. rewrite cnt_app in Hx.
-    fold (mapping_cids (mapping s)) in Hx.
-    rewrite combine_snd in Hx by (rewrite seqN_length; reflexivity).
-    specialize (C3 x). rewrite cnt_nil in C3. nlia.
+  - intros x Hx. apply cnt_In in Hx. unfold mapping_cids in Hx. cbn [flat_map snd target_cids] in Hx.
+    fold (mapping_cids (mapping s)) in Hx. apply in_app_or in Hx as [Hx|Hx].
+    + (* a column of the new instance: the HashMap holds a subset of the instance's cids *)
+      apply in_map_iff in Hx as [rc [<- Hrc]]. apply hm_collect_incl in Hrc.
+      assert (In (snd rc) (seqN b (length u))) as Hin.
+      { rewrite <- (combine_snd u (seqN b (length u))) by (rewrite seqN_length; reflexivity). apply in_map. exact Hrc. }
+      apply cnt_In in Hin. nlia.
+    + apply cnt_In in Hx. specialize (C3 x Hx). rewrite cnt_nil in C3. nlia.
   - intros x Hx. specialize (C4 x Hx). rewrite cnt_nil in C4. nlia.
+Qed.
+
+Lemma mk_instance_columns s node name t cols r s3 :
+  mk_instance s node name t cols = (r, s3) ->
+  map fst (tr_columns r) = cols /\ tref_cids r = seqN (next_cid s) (length cols)
+  /\ mapping s3 = (node, MInput (hm_collect (tr_columns r))) :: mapping s.
+Proof.
+  unfold mk_instance. intro H; injection H as <- <-. cbn [tr_columns mapping]. unfold tref_cids. cbn [tr_columns].
+  repeat split; [apply combine_fst | apply combine_snd]; rewrite seqN_length; reflexivity.
 Qed.
 
 (* ---- redirect_mappings ---- *)
 
 Lemma redirect_cid_cases rs c : redirect_cid rs c = c \/ In (redirect_cid rs c) (map snd rs).
 Proof.
-  unfold redirect_cid. destruct (find (fun p => N.eqb (fst p) c) rs) as [p|] eqn:F; [|left; reflexivity].
-  right. apply find_some in F as [F _]. apply in_map. exact F.
+  unfold redirect_cid. destruct (find (fun p => N.eqb (fst p) c) (rev rs)) as [p|] eqn:F; [|left; reflexivity].
+  right. apply find_some in F as [F _]. apply in_map. apply in_rev. exact F.
 Qed.
 
 Lemma redirect_cids rs m x :
@@ -649,6 +669,76 @@ Proof.
   - destruct (step s o) as [s1|] eqn:E; [|discriminate]. intro H. eapply IH; [|exact H]. eapply step_inv; eassumption.
 Qed.
 
+(* ------------------------------------------------------------------ pulling a sub-pipeline into a table redirects EVERY id of its closing Select
+   (true since 3b8ac37: the instance has one column per declared column, so zip(closing Select, instance) loses nothing;
+   with itertools::unique on the column list the zip was short by one for each repeated column and the last ids of the
+   closing Select stayed in node_mapping -- finding C16-F4) *)
+
+Lemma redirect_cid_key rs c : In c (map fst rs) -> In (redirect_cid rs c) (map snd rs).
+Proof.
+  intro H. unfold redirect_cid. destruct (find (fun p => N.eqb (fst p) c) (rev rs)) as [p|] eqn:F.
+  - apply find_some in F as [F _]. apply in_map. apply in_rev. exact F.
+  - exfalso. apply in_map_iff in H as [p [E Hp]]. apply in_rev in Hp.
+    pose proof (find_none _ _ F p Hp) as Hn. cbn beta in Hn. subst c. rewrite N.eqb_refl in Hn. discriminate.
+Qed.
+
+Lemma redirect_cid_nokey rs c : ~ In c (map fst rs) -> redirect_cid rs c = c.
+Proof.
+  intro H. unfold redirect_cid. destruct (find (fun p => N.eqb (fst p) c) (rev rs)) as [p|] eqn:F; [|reflexivity].
+  exfalso. apply find_some in F as [F E]. apply N.eqb_eq in E. apply H. rewrite <- E. apply in_map. apply in_rev. exact F.
+Qed.
+
+Lemma redirect_cids_src rs m x :
+  In x (mapping_cids (redirect rs m)) -> exists y, In y (mapping_cids m) /\ x = redirect_cid rs y.
+Proof.
+  unfold mapping_cids, redirect. rewrite flat_map_concat_map, map_map, <- flat_map_concat_map.
+  intro H. apply in_flat_map in H as [[n tg] [Hin Hx]]. cbn [snd fst] in Hx.
+  destruct tg as [c|cols]; cbn [redirect_target target_cids] in Hx.
+  - destruct Hx as [<-|[]]. exists c. split; [|reflexivity].
+    apply in_flat_map. exists (n, MCompute c). split; [exact Hin | left; reflexivity].
+  - rewrite map_map in Hx. cbn [snd] in Hx. apply in_map_iff in Hx as [[rc c] [<- Hc]]. cbn [snd].
+    exists c. split; [|reflexivity]. apply in_flat_map. exists (n, MInput cols). split; [exact Hin|]. cbn [snd target_cids].
+    change c with (snd (rc, c)). apply in_map. exact Hc.
+Qed.
+
+Theorem end_inline_redirects_all s node frame u s' :
+  Inv s -> step s (OEndInline node frame u) = Some s' ->
+  forall c, In c (map snd frame) -> ~ In c (mapping_cids (mapping s')).
+Proof.
+  intros [HC HT]. cbn [step].
+  destruct (frames s) as [|[[|t|] p] fs] eqn:Ef; try discriminate.
+  destruct (guard s (map snd frame)) eqn:G; [|discriminate].
+  set (s1 := mkL (next_cid s) (next_tid s) (mapping s) fs (tables s ++ [mkTable t None (select_relation p frame)])).
+  destruct (mk_instance s1 node None t (map fst frame)) as [r s2] eqn:M.
+  destruct (mk_instance_columns _ _ _ _ _ _ _ M) as [_ [Hr _]]. cbn [s1 next_cid] in Hr. rewrite map_length in Hr.
+  set (rs := combine (map snd frame) (tref_cids r)).
+  set (s3 := mkL (next_cid s2) (next_tid s2) (redirect rs (mapping s2)) (frames s2) (tables s2)).
+  destruct (apply_use s3 r u) as [tr|]; [|discriminate].
+  destruct (push_top tr (frames s3)) as [fs'|]; [|discriminate].
+  intro H; injection H as <-. cbn [mapping s3].
+  assert (length (map snd frame) = length (tref_cids r)) as Hlen by (rewrite Hr, map_length, seqN_length; reflexivity).
+  assert (map fst rs = map snd frame) as Ek by (apply combine_fst; exact Hlen).
+  assert (map snd rs = tref_cids r) as Ev by (apply combine_snd; exact Hlen).
+  intros c Hc Hin. apply redirect_cids_src in Hin as [y [_ E]].
+  assert (c < next_cid s) as Hlt.
+  { destruct HC as [C1 C2 C3 C4]. apply C2. apply C3. apply (guard_cnt s _ G). apply cnt_In. exact Hc. }
+  destruct (in_dec N.eq_dec y (map fst rs)) as [Hy|Hy].
+  - apply redirect_cid_key in Hy. rewrite <- E, Ev, Hr in Hy. apply seqN_In in Hy. nlia.
+  - rewrite (redirect_cid_nokey _ _ Hy) in E. subst y. apply Hy. rewrite Ek. exact Hc.
+Qed.
+
+Theorem lowerer_inline_redirects_all ops s node frame u s' :
+  run init ops = Some s -> step s (OEndInline node frame u) = Some s' ->
+  forall c, In c (map snd frame) -> ~ In c (mapping_cids (mapping s')).
+Proof. intro H. apply end_inline_redirects_all. exact (run_inv ops init s Inv_init H). Qed.
+
+(* every instance has exactly the declared columns of its table, in order (duplicates included) *)
+Theorem instance_has_declared_columns s node name t cols r s3 :
+  mk_instance s node name t cols = (r, s3) -> map fst (tr_columns r) = cols /\ NoDup (tref_cids r).
+Proof.
+  intro M. destruct (mk_instance_columns _ _ _ _ _ _ _ M) as [H1 [H2 _]]. split; [exact H1|]. rewrite H2. apply seqN_NoDup.
+Qed.
+
 (* ------------------------------------------------------------------ what a finished run hands to the back end *)
 
 Record rq_closed (q : rq) : Prop := {
@@ -754,6 +844,38 @@ Theorem lowerer_emits_closed ops s q : run init ops = Some s -> finish s = Some 
 Proof.
   intros H F. pose proof (finish_closed s q (run_inv ops init s Inv_init H) F) as C.
   split; [exact C | apply closed_lookups_total; exact C].
+Qed.
+
+(* ------------------------------------------------------------------ IdGenerator::load: every generated id is new, and there is room *)
+
+Lemma idgen_load_from_spec max_id ids : forall next g,
+  idgen_load_from max_id next ids = Some g ->
+  next <= g /\ (forall c, In c ids -> c < g) /\ (next <= max_id / 2 + 1 -> g <= max_id / 2 + 1).
+Proof.
+  induction ids as [|id ids IH]; intros next g; cbn [idgen_load_from].
+  - intro H; injection H as <-. repeat split; [lia | intros ? [] | auto].
+  - unfold idgen_skip. destruct (max_id / 2 <? id) eqn:E; [discriminate|]. apply N.ltb_ge in E.
+    intro H. destruct (IH _ _ H) as [H1 [H2 H3]]. repeat split.
+    + lia.
+    + intros c [<-|Hc]; [lia | apply H2; exact Hc].
+    + intro Hn. apply H3. lia.
+Qed.
+
+Theorem idgen_load_spec max_id ids g :
+  idgen_load max_id ids = Some g ->
+  (forall c, In c ids -> c < g) /\ g <= max_id / 2 + 1
+  /\ forall k, fst (idgen_gen (g + k)) = g + k /\ ~ In (g + k) ids.
+Proof.
+  unfold idgen_load. intro H. destruct (idgen_load_from_spec _ _ _ _ H) as [_ [H2 H3]].
+  split; [exact H2|]. split; [apply H3; apply N.le_0_l|]. intro k. split; [reflexivity|]. intro Hin. apply H2 in Hin. lia.
+Qed.
+
+Theorem idgen_load_refuses max_id ids c : In c ids -> max_id / 2 < c -> idgen_load max_id ids = None.
+Proof.
+  unfold idgen_load. generalize 0. induction ids as [|id ids IH]; intros next Hin Hc; [contradiction|].
+  cbn [idgen_load_from]. unfold idgen_skip. destruct Hin as [->|Hin].
+  - apply N.ltb_lt in Hc. rewrite Hc. reflexivity.
+  - destruct (max_id / 2 <? id); [reflexivity|]. apply IH; assumption.
 Qed.
 
 (* ------------------------------------------------------------------ toposort: dependencies come first *)
